@@ -8,9 +8,10 @@ by self-closing syntax in foreign content. An element is presented to `matches` 
 CSS matching of the supported grammar can look at: its start tag, the names of its preceding element
 siblings (in document order) and its chain of ancestors (each with the same data).
 
-Leaf predicates: `:nth-*` uses the shared `Sel.hasIndex` (proved against `∃ n, a·n+b = i` in another
-package); the attribute operators are given here as CSS Selectors 4 §6.1/§6.2 define them, *not* as
-the code computes them (`Sel.opMatchesCode`) — they differ for empty operands of `^=`, `$=`, `~=`.
+Leaf predicates are given here as CSS Selectors 4 defines them, *not* as the code computes them:
+`nthMatches a b i` decides `∃ n ≥ 0, a·n + b = i` over the integers (`Sel.hasIndex` wraps at 32 bits),
+the attribute operators follow §6.1/§6.2 (`Sel.opMatchesCode` differs for empty operands of `^=`, `$=`,
+`~=`).
 -/
 import LolHtml.Model.Sel
 
@@ -23,6 +24,11 @@ structure Elem where
   /-- names of the element siblings that precede it, in document order -/
   prevSiblings : List Bytes
   deriving DecidableEq, Repr
+
+/-- `∃ n : ℕ, a·n + b = i`, decided exactly over `Int` (see `nthMatches_iff` in Lemmas.SelVM). -/
+def nthMatches (a b : Int) (i : Nat) : Bool :=
+  if a == 0 then (i : Int) == b
+  else ((i : Int) - b) % a == 0 && decide (0 ≤ ((i : Int) - b) / a)
 
 def Elem.childIndex (e : Elem) : Nat := e.prevSiblings.length + 1
 
@@ -60,8 +66,8 @@ def matchesSimple (e : Elem) : Simple → Bool
     match attrValue e.tag n with
     | some actual => opMatches op (toUnconditional cs (e.tag.ns == .html)) actual v
     | none => false
-  | .nthChild a b => hasIndex a b e.childIndex
-  | .nthOfType a b => hasIndex a b e.typeIndex
+  | .nthChild a b => nthMatches a b e.childIndex
+  | .nthOfType a b => nthMatches a b e.typeIndex
   | .firstChild => e.childIndex == 1
   | .firstOfType => e.typeIndex == 1
   | .not args => !matchesAnyCompound e args
